@@ -24,13 +24,13 @@ def _atmosphere(ctx, n):
     return Rp, Rs, dz, z, rho
 
 
-def _contribs(ctx, n, nw, kinds, tag='s', zero=False):
+def _contribs(ctx, n, nw, kinds, tag='s', zero=False, hint=None):
     cs, sig = [], []
     for ci, kind in enumerate(kinds):
         if zero:
             s = np.zeros((n, nw)) if not ctx.sym else np.zeros((n, nw), dtype=object) + 0.0
         else:
-            s = ctx.array('%s%d' % (tag, ci), (n, nw), ge=0)
+            s = ctx.array('%s%d' % (tag, ci), (n, nw), ge=0, hint=hint)
         sig.append(s)
         cs.append(SigmaContribution.make('c%d_%s' % (ci, kind), s, kind=kind, order=ci))
     return cs, sig
